@@ -122,6 +122,12 @@ class Symbol(ExpressionToken):
         if extern_mapping:
             extern = compiler.symbols.get(extern_mapping[1])
             if extern:
+                # The file that is being compiled may still define this name
+                # itself further down, and its own definition takes precedence:
+                # another file's export is only trusted once everything has
+                # been compiled.
+                if not compiler.all_files_compiled:
+                    not_ready()
                 return extern
 
         not_ready()
